@@ -2,6 +2,8 @@
    keep keys right.  Statements about the reference semantics (Eval/Interp.v);
    the Go representations are tied to it by the correspondence run. *)
 From Arrai Require Import Base.Val Spec.SetAlg Eval.Interp Proofs.ValOrder Proofs.SetAlgP Proofs.KeyedP Proofs.SeqMapP.
+From Arrai Require Rep.DictRep Proofs.DictRepP.
+From Arrai Require Import Rep.CallRep Proofs.CallRepP.
 
 (* what "the values paired with k" means *)
 Theorem C05_lookup :
@@ -99,3 +101,163 @@ Example C05_probe_call :
   run_data 60 (ESafeCall (EArrE [Some (ELit (vint 1)); None; Some (ELit (vint 3))]) (ELit (vint 1)) (ELit (vint 9)))
   = Ok (vint 9).
 Proof. vm_compute. reflexivity. Qed.
+
+(* ================= the Go lookup code inside the model (Rep/CallRep.v, Proofs/CallRepP.v) =================
+   rep = the layout a Go collection holds (String / Bytes / Array with offset and holes, Dict with single and
+   multi-valued slots, Relation in its stored column order, GenericSet, UnionSet, EmptySet, TrueSet);
+   abs = the members its Enumerator yields; wf = the invariants its constructors keep (checked on every
+   layout the implementation is seen to hold); rep_setcall q = SetCall over the per-type CallAll, with the
+   quirk flag q of KF-C05-04 (false = repaired). *)
+
+(* SetCall over every representation computes call_data of the denoted set: the value when exactly one is
+   paired with the key, NoReturnError when none, "too many" when several - strings, byte arrays and arrays at
+   any offset with any holes, dicts incl. multi-valued, relations in any stored column order, union sets *)
+Theorem C05_rep_call_refines_call_data :
+  forall r k, wf r -> call_data (abs r) k <> CRNotKeyed ->
+    rep_setcall false r k = out_of_callres (call_data (abs r) k).
+Proof. exact rep_call_refines. Qed.
+Print Assumptions C05_rep_call_refines_call_data.
+
+(* the same about the denoted canonical set: enumeration order and repetitions do not matter *)
+Theorem C05_rep_call_on_the_denoted_set :
+  forall r k, match abs_val r with VSet l => call_data l k = call_data (abs r) k | _ => False end.
+Proof. exact call_data_abs_val. Qed.
+Print Assumptions C05_rep_call_on_the_denoted_set.
+
+(* a set with a member that is not a (@, x) pair is refused by every representation but TrueSet *)
+Theorem C05_rep_call_refuses_non_keyed_sets :
+  forall r k, wf r -> has_true r = false -> call_data (abs r) k = CRNotKeyed -> rep_setcall false r k = ONotKeyed.
+Proof. exact rep_call_not_keyed. Qed.
+Print Assumptions C05_rep_call_refuses_non_keyed_sets.
+
+(* the index arithmetic never leaves the slices, whatever the key *)
+Theorem C05_rep_call_never_panics : forall q r k, wf r -> rep_setcall q r k <> OPanic.
+Proof. exact rep_call_never_panics. Qed.
+Print Assumptions C05_rep_call_never_panics.
+
+(* c(k)?:d takes the fallback exactly when the denoted set pairs no value with k *)
+Theorem C05_rep_fallback_exactly_when_no_value :
+  forall r k, wf r -> call_data (abs r) k <> CRNotKeyed ->
+    (rep_safecall false r k = SFallback <-> lookup_all k (abs r) = Some []).
+Proof. exact rep_fallback_iff. Qed.
+Print Assumptions C05_rep_fallback_exactly_when_no_value.
+
+(* the code as it is (quirk on) agrees wherever the quirk does not change the outcome ... *)
+Theorem C05_rep_call_current_code_outside_collisions :
+  forall r k, wf r -> result_collision r k = false -> call_data (abs r) k <> CRNotKeyed ->
+    rep_setcall true r k = out_of_callres (call_data (abs r) k).
+Proof. exact rep_call_current_code_outside_collisions. Qed.
+Print Assumptions C05_rep_call_current_code_outside_collisions.
+
+(* ... and is refuted inside: several different values paired with the key, yet one of them is returned (KF-C05-04) *)
+Theorem C05_rep_call_result_collision_refuted :
+  exists r k v, wf r /\ call_data (abs r) k = CRMany /\ rep_setcall true r k = OOne v.
+Proof. exact rep_call_collapse_refuted. Qed.
+Print Assumptions C05_rep_call_result_collision_refuted.
+
+(* Count(), computed from the stored hole / count fields, is the number of members *)
+Theorem C05_rep_count_is_cardinality : forall r, wf r -> rep_count r = Z.of_nat (length (abs r)).
+Proof. exact count_is_length. Qed.
+Print Assumptions C05_rep_count_is_cardinality.
+
+(* n \ s on the slice + offset + holes layouts: the members of the result are the members of s with every
+   index moved by n (shift_member is the function of C05_shift_changes_only_the_key), and the result is again
+   a well-formed layout *)
+Theorem C05_rep_offset_refines :
+  forall n r r', rep_offset (vint n) r = Some r' -> mapM (shift_member n) (abs r) = Ok (abs r').
+Proof. exact rep_offset_refines. Qed.
+Print Assumptions C05_rep_offset_refines.
+
+Theorem C05_rep_offset_keeps_invariants : forall n r r', wf r -> rep_offset n r = Some r' -> wf r'.
+Proof. exact rep_offset_wf. Qed.
+Print Assumptions C05_rep_offset_keeps_invariants.
+
+(* a ++ b: what Concatenate hands to its set builder is the specification's a ++ b - the right operand shifted
+   by the left operand's Count(), i.e. its number of members: holes and the offset of the left operand do
+   not count - and the two fail together *)
+Theorem C05_rep_concat_refines :
+  forall a b, wf a ->
+    concat_sets (abs a) (abs b) = match rep_concat_added a b with Some ms => Ok (mkset ms) | None => Err end.
+Proof. exact rep_concat_refines. Qed.
+Print Assumptions C05_rep_concat_refines.
+
+(* ... and, for arrays, down to the layout of the result: asArray, given items no two of which sit at one index
+   with different values (outside KF-C05-01), builds a well-formed Array that denotes exactly those items *)
+Theorem C05_rep_as_array_refines :
+  forall l, l <> [] -> (forall i x y, In (i, x) l -> In (i, y) l -> x = y) ->
+    wf (as_array l) /\
+    forall m, In m (abs (as_array l)) <-> exists i x, In (i, x) l /\ m = vpair n_item (vint i) x.
+Proof. exact as_array_refines. Qed.
+Print Assumptions C05_rep_as_array_refines.
+
+Theorem C05_rep_concat_array_layout :
+  forall a b ms l,
+    rep_concat_added a b = Some ms -> ms <> [] -> items_of n_item ms = Some l ->
+    (forall i x y, In (i, x) l -> In (i, y) l -> x = y) ->
+    rep_concat a b = Some (as_array l) /\ wf (as_array l) /\ forall m, In m (abs (as_array l)) <-> In m ms.
+Proof. exact rep_concat_array_layout. Qed.
+Print Assumptions C05_rep_concat_array_layout.
+
+(* the same for strings (items are characters, i.e. non-negative integers) and for byte arrays (whose indices
+   must also be contiguous: a gap becomes zero bytes, KF-C05-02) *)
+Theorem C05_rep_as_string_refines :
+  forall l, l <> [] -> (forall i x y, In (i, x) l -> In (i, y) l -> x = y) ->
+    (forall i x, In (i, x) l -> exists z, x = vint z /\ 0 <= z) ->
+    wf (as_string l) /\
+    forall m, In m (abs (as_string l)) <-> exists i x, In (i, x) l /\ m = vpair n_char (vint i) x.
+Proof. exact as_string_refines. Qed.
+Print Assumptions C05_rep_as_string_refines.
+
+Theorem C05_rep_concat_string_layout :
+  forall a b ms l,
+    rep_concat_added a b = Some ms -> ms <> [] -> items_of n_char ms = Some l ->
+    (forall i x y, In (i, x) l -> In (i, y) l -> x = y) ->
+    (forall i x, In (i, x) l -> exists z, x = vint z /\ 0 <= z) ->
+    rep_concat a b = Some (as_string l) /\ wf (as_string l) /\ forall m, In m (abs (as_string l)) <-> In m ms.
+Proof. exact rep_concat_string_layout. Qed.
+Print Assumptions C05_rep_concat_string_layout.
+
+Theorem C05_rep_as_bytes_refines :
+  forall l, l <> [] -> (forall i x y, In (i, x) l -> In (i, y) l -> x = y) ->
+    (forall i x, In (i, x) l -> exists z, x = vint z) ->
+    (forall lo hi, min_max l = Some (lo, hi) -> forall i, lo <= i <= hi -> exists x, In (i, x) l) ->
+    wf (as_bytes l) /\
+    forall m, In m (abs (as_bytes l)) <-> exists i x, In (i, x) l /\ m = vpair n_byte (vint i) x.
+Proof. exact as_bytes_refines. Qed.
+Print Assumptions C05_rep_as_bytes_refines.
+
+Example C05_rep_as_string_example :
+  as_string [(4, vint 101); (0, vint 97); (2, vint 120)] = RStr 0 [97; -1; 120; -1; 101] 2 /\
+  as_bytes [(3, vint 7); (5, vint 9)] = RBytes 3 [7; 0; 9].
+Proof. vm_compute. split; reflexivity. Qed.
+
+Example C05_rep_concat_array_example :
+  let a := RArr 2 [Some (vint 1); None; Some (vint 3)] 2 in
+  let b := RArr (-1) [Some (vint 7); Some (vint 8)] 2 in
+  (* shifted by Count() = 2, not by the length 3 and not by the offset: an item lands on index 2, which is taken *)
+  rep_concat_added a b = Some [vpair n_item (vint 2) (vint 1); vpair n_item (vint 4) (vint 3);
+                               vpair n_item (vint 1) (vint 7); vpair n_item (vint 2) (vint 8)] /\
+  rep_concat (RArr 0 [Some (vint 1); None; Some (vint 3)] 2) (RArr (-1) [Some (vint 7)] 1) =
+    Some (RArr 0 [Some (vint 1); Some (vint 7); Some (vint 3)] 3).
+Proof. vm_compute. split; reflexivity. Qed.
+
+(* non-vacuity: a union of an offset string with holes and a relation stored as [x, @] is well formed and keyed *)
+Definition C05_example_rep : rep :=
+  RUnion [RStr 3 [97; -1; -1; 101] 2; RRel [[120]; n_at] [0%nat; 1%nat] [[vint 5; vint 2]; [vint 6; vint 3]]].
+Example C05_rep_example_hypotheses :
+  wf C05_example_rep /\ call_data (abs C05_example_rep) (vint 3) = CRMany /\
+  rep_setcall false C05_example_rep (vint 6) = OOne (vint 101) /\
+  rep_setcall false C05_example_rep (vint 4) = ONoReturn /\
+  rep_safecall false C05_example_rep (vint 4) = SFallback.
+Proof. vm_compute. repeat split. Qed.
+
+Example C05_rep_offset_concat_example :
+  rep_offset (vint (-5)) (RArr 2 [None; Some (vint 1); None; Some (vint 3); None] 2) = Some (RArr (-2) [Some (vint 1); None; Some (vint 3)] 2) /\
+  rep_concat (RStr 0 [97; -1; -1; -1; 101] 3) (RStr 0 [120; 121] 0) = Some (RStr 0 [97; -1; 120; 121; 101] 1).
+Proof. vm_compute. split; reflexivity. Qed.
+
+(* the Go dictionary lookup (Dict.CallAll transcribed in Rep/DictRep.v) yields exactly the values paired with the key *)
+Theorem C05_dictrep_call_all_is_the_paired_values :
+  forall d k x, DictRep.dict_ok d = true -> (In x (DictRep.dict_call_all d k) <-> In (ventry k x) (DictRep.dict_enum d)).
+Proof. exact DictRepP.dict_call_all_spec. Qed.
+Print Assumptions C05_dictrep_call_all_is_the_paired_values.
